@@ -36,6 +36,9 @@ import plans  # noqa: E402
 # ----------------------------------------------------------------------------------------------------------------
 # Build configurations.
 
+SANCOV = ("-Cpasses=sancov-module -Cllvm-args=-sanitizer-coverage-level=4 -Cllvm-args=-sanitizer-coverage-inline-8bit-counters "
+          "-Cllvm-args=-sanitizer-coverage-pc-table -Cllvm-args=-sanitizer-coverage-trace-compares --cfg fuzzing")
+
 CONFIGS = {
     # tag: (toolchain, rustflags, profile, features, extra cargo args, runner)
     "dbg": ("", "-C target-cpu=native", "dev", ["probes"], [], "native"),
@@ -51,6 +54,12 @@ CONFIGS = {
     "miri": ("+nightly", "", "dev", ["probes"], [], "miri"),
     "miri-wrap": ("+nightly", "", "dev", ["probes"], ["--config", "profile.dev.overflow-checks=false"], "miri"),
     "miri-native": ("+nightly", "-C target-cpu=native", "dev", ["probes"], [], "miri"),
+    # Coverage-guided leg: the same drivers and oracles, decisions drawn from libFuzzer's mutated bytes (harness/src/fuzz.rs),
+    # AddressSanitizer, release arithmetic. `fuzz-dbg` is the same with overflow checks and debug assertions instead of ASan.
+    "fuzz": ("+nightly", SANCOV + " -Zsanitizer=address -Cforce-frame-pointers=yes -C target-cpu=native", "release", ["probes"],
+             ["--target", "x86_64-unknown-linux-gnu"], "fuzz"),
+    "fuzz-dbg": ("+nightly", SANCOV + " -Coverflow-checks=on -Cdebug-assertions=on -C target-cpu=native", "release", ["probes"],
+                 ["--target", "x86_64-unknown-linux-gnu"], "fuzz"),
     # Not used by any registered check: source-coverage measurement of the workloads (coverage.py).
     "cov": ("+nightly", "-Cinstrument-coverage -C target-cpu=native", "release", ["probes"], [], "native"),
 }
@@ -79,7 +88,7 @@ def env_for(cfg):
     env["TMPDIR"] = tmp
     if runner == "miri":
         env["MIRIFLAGS"] = "-Zmiri-disable-isolation -Zmiri-permissive-provenance"
-    if cfg == "asan":
+    if cfg in ("asan", "fuzz"):
         env["ASAN_OPTIONS"] = "detect_leaks=1:abort_on_error=0:halt_on_error=1:exitcode=77:symbolize=1"
         sym = shutil.which("llvm-symbolizer") or shutil.which("llvm-symbolizer-14")
         if sym:
@@ -96,6 +105,11 @@ def write_manifest(cfg):
     toolchain, rustflags, profile, features, extra, runner = CONFIGS[cfg]
     d = ws_dir(cfg)
     os.makedirs(d, exist_ok=True)
+    src = HARNESS_SRC
+    fuzzdep = ""
+    if runner == "fuzz":
+        src = os.path.join(os.path.dirname(HARNESS_SRC), "fuzz.rs")
+        fuzzdep = 'libfuzzer-sys = "0.4"\n'
     manifest = """[package]
 name = "vmon"
 version = "0.1.0"
@@ -108,7 +122,7 @@ path = "%s"
 [dependencies]
 simple-sds = { path = "%s" }
 libc = "0.2"
-
+%s
 [features]
 probes = ["simple-sds/verif-probes"]
 bounds = ["simple-sds/verif-bounds"]
@@ -124,7 +138,7 @@ debug-assertions = false
 debug = 1
 
 [workspace]
-""" % (HARNESS_SRC, os.path.abspath(REPO))
+""" % (src, os.path.abspath(REPO), fuzzdep)
     path = os.path.join(d, "Cargo.toml")
     old = None
     if os.path.exists(path):
@@ -203,6 +217,10 @@ def run_shard(job):
         prefix = build(cfg)
         env = env_for(cfg)
     extra_env = dict(job.get("env", {}))
+    if job.get("fuzz_dir"):
+        shutil.rmtree(job["fuzz_dir"], ignore_errors=True)
+        os.makedirs(os.path.join(job["fuzz_dir"], "artifacts"))
+        os.makedirs(os.path.join(job["fuzz_dir"], "corpus"))
     if "MIRIFLAGS_EXTRA" in extra_env:
         # One scheduler seed per shard, so that shards explore different schedules.
         env["MIRIFLAGS"] = env.get("MIRIFLAGS", "") + " " + extra_env.pop("MIRIFLAGS_EXTRA") + " -Zmiri-seed=%d" % (job["shard"] + 1000 * job.get("seed", 0))
@@ -233,6 +251,31 @@ def run_shard(job):
         elif line.startswith("VMON-HARNESS-ERROR"):
             res["harness_error"] = line
     res["stdout_tail"] = out[-2000:] if res["result"] is None else ""
+    if job.get("fuzz_dir") or job.get("fuzz_replay"):
+        # What the fuzzer did (libFuzzer's final statistics and last status line), and whatever it stored as a crash artifact.
+        st = {}
+        for k, v in re.findall(r"^stat::(\w+):\s+(\d+)", err, re.M):
+            st[k] = int(v)
+        m = re.findall(r"cov: (\d+) ft: (\d+) corp: (\d+)", err)
+        if m:
+            st["cov_edges"], st["features"], st["corpus"] = (int(x) for x in m[-1])
+        res["fuzz_stats"] = st
+        res["fuzz_violations"] = []
+        for line in err.splitlines():
+            if line.startswith("VMON-FUZZ-VIOLATION "):
+                try:
+                    res["fuzz_violations"].append(json.loads(line[len("VMON-FUZZ-VIOLATION "):]))
+                except Exception:
+                    pass
+        arts = sorted(os.listdir(os.path.join(job["fuzz_dir"], "artifacts"))) if job.get("fuzz_dir") else []
+        # slow-unit-* files are notes about slow inputs, not failures.
+        arts = [a for a in arts if not a.startswith("slow-unit-")]
+        res["fuzz_artifacts"] = [os.path.join(job["fuzz_dir"], "artifacts", a) for a in arts]
+        res["fuzz_kind"] = "timeout" if any(a.startswith("timeout-") for a in arts) else ("oom" if any(a.startswith("oom-") for a in arts) else ("crash" if arts else ""))
+        if "VMON-FUZZ-HARNESS-PANIC" in err:
+            res["harness_error"] = [l for l in err.splitlines() if l.startswith("VMON-FUZZ-HARNESS-PANIC")][0]
+        if not arts and job.get("fuzz_dir"):
+            shutil.rmtree(job["fuzz_dir"], ignore_errors=True)
     return res
 
 
@@ -268,6 +311,18 @@ def jobs_for(prop, tier, seed, only_leg=None):
                 args.append("part=%s" % leg["part"])
             if leg.get("scale"):
                 args.append("scale=%d" % leg["scale"])
+            if CONFIGS.get(leg["cfg"], ("",) * 6)[5] == "fuzz":
+                # Coverage-guided leg: libFuzzer owns argv, the workload is selected through the environment. A fixed number of
+                # executions from a fixed seed and an empty corpus, one process per shard: what a shard executes is a function of
+                # (binary, seed, shard) only.
+                fdir = os.path.join(CACHE, "work", "fuzz-%s-%s-%d-%s-%d-%d" % (prop, tier, seed, repo_key(), li, s))
+                args = ["-runs=%d" % leg.get("runs", 20000), "-seed=%d" % (1 + seed * 1000 + s), "-max_len=%d" % leg.get("maxlen", 2048), "-len_control=0",
+                        "-timeout=120", "-report_slow_units=120", "-rss_limit_mb=8000", "-print_final_stats=1", "-verbosity=0", "-artifact_prefix=%s/" % os.path.join(fdir, "artifacts"), os.path.join(fdir, "corpus")]
+                fenv = {"VMON_FUZZ_DRIVER": leg.get("driver", plan["driver"]), "VMON_FUZZ_PART": leg.get("part", ""), "VMON_FUZZ_TIER": tier, "VMON_FUZZ_SEED": str(seed),
+                        "VMON_FUZZ_SHARD": str(s), "VMON_FUZZ_TMP": tmp, "VMON_FUZZ_CFG": leg["cfg"]}
+                jobs.append({"cfg": leg["cfg"], "args": args, "leg": li, "shard": s, "stage": leg.get("stage", 0), "python": None, "only_crash": False, "driver": "", "part": leg.get("part", ""),
+                             "timeout": leg.get("timeout", 900 if tier == "quick" else 5400), "env": dict(leg.get("env", {}), **fenv), "weight": leg.get("weight", 1), "seed": seed, "fuzz_dir": fdir})
+                continue
             if leg.get("python"):
                 # A Python stage of the pipeline (the independent format codec); prints the same VMON-RESULT line.
                 args = [a.format(dir=work_dir(prop, tier, seed), shard=s, nshards=of, seed=seed) for a in leg["pyargs"]]
@@ -297,6 +352,20 @@ def classify_crash(res):
     err = res["stderr_tail"]
     cfg = res["job"]["cfg"]
     if res["timed_out"] or res["job"].get("python"):
+        return None
+    if "fuzz_kind" in res:
+        # Coverage-guided leg: libFuzzer turns every abnormal end into exit code 77 (70: one input ran too long, 71: memory limit).
+        if res["fuzz_kind"] in ("timeout", "oom") or rc in (70, 71):
+            return None
+        if "ERROR: AddressSanitizer" in err:
+            m = re.search(r"ERROR: AddressSanitizer: (\S+)", err)
+            return "sanitizer.asan.%s" % (m.group(1) if m else "report")
+        if res.get("fuzz_violations") or (res.get("result") and res["result"].get("violations")):
+            return None  # a monitor violation, reported through the result line
+        if "ERROR: LeakSanitizer" in err:
+            return "sanitizer.lsan.leak"
+        if "ERROR: libFuzzer: deadly signal" in err or res["fuzz_kind"] == "crash":
+            return "signal.fuzz_deadly_signal"
         return None
     if "ERROR: AddressSanitizer" in err:
         m = re.search(r"ERROR: AddressSanitizer: (\S+)", err)
@@ -345,6 +414,7 @@ def run_property(prop, tier, seed):
     if plan.get("work_dir"):
         shutil.rmtree(work_dir(prop, tier, seed), ignore_errors=True)
 
+    fuzz_artifacts = {id(r["job"]): r.get("fuzz_artifacts") for r in results if r.get("fuzz_artifacts")}
     evals = 0
     checks = 0
     digests = set()
@@ -374,14 +444,26 @@ def run_property(prop, tier, seed):
         if crash:
             info["reports"] += 1
             violations.append((crash + "." + job["cfg"], "process ended abnormally (rc=%s) in %s\n%s" % (r["rc"], " ".join(job["args"]), r["stderr_tail"][-3000:]), job))
+        if res is None and not crash and r.get("fuzz_violations"):
+            for v in r["fuzz_violations"]:
+                violations.append((v["sig"], v["detail"], job))
+            continue
         if res is None:
-            if r["timed_out"]:
+            if r.get("fuzz_kind") in ("timeout", "oom") or (r.get("fuzz_kind") is not None and r["rc"] in (70, 71)):
+                inconclusive.append("%s shard %d: the fuzzer stopped on one input that %s (%s)" % (job["cfg"], job["shard"], "ran longer than its time limit" if r.get("fuzz_kind") == "timeout" or r["rc"] == 70 else "exceeded its memory limit", ", ".join(r.get("fuzz_artifacts", [])[:1])))
+            elif r["timed_out"]:
                 inconclusive.append("watchdog fired after %ds in %s shard %d" % (job["timeout"], job["cfg"], job["shard"]))
             elif r["rc"] in (-9, -15):
                 inconclusive.append("%s shard %d was killed from outside (rc=%s)" % (job["cfg"], job["shard"], r["rc"]))
             elif not crash:
                 harness_errors.append("%s shard %d: no result (rc=%s) stderr: %s stdout: %s" % (job["cfg"], job["shard"], r["rc"], r["stderr_tail"][-1500:], r["stdout_tail"]))
             continue
+        for k, v in (r.get("fuzz_stats") or {}).items():
+            ck = "fuzz.libfuzzer.%s" % k
+            if k in ("cov_edges", "features", "corpus", "peak_rss_mb"):
+                counters[ck] = max(counters.get(ck, 0), v)
+            else:
+                counters[ck] = counters.get(ck, 0) + v
         evals += res["evaluations"]
         checks += res["checks"]
         info["evaluations"] += res["evaluations"]
@@ -449,10 +531,22 @@ def run_property(prop, tier, seed):
                 break
             m = re.match(r"case#(\d+) ", detail)
             path = os.path.join(rdir, "%d-%d.case" % (seed, len(replay_paths)))
-            json.dump({"property": prop, "sig": sig, "detail": detail, "cfg": job["cfg"], "args": job["args"], "case": int(m.group(1)) if m else None,
-                       "repo": os.path.abspath(REPO)}, open(path, "w"), indent=1)
+            rec = {"property": prop, "sig": sig, "detail": detail, "cfg": job["cfg"], "args": job["args"], "case": int(m.group(1)) if m else None,
+                   "repo": os.path.abspath(REPO)}
+            if job.get("fuzz_dir"):
+                # The input that libFuzzer stored is the witness: keep it next to the case file and drop the work directory.
+                arts = [a for a in (fuzz_artifacts.get(id(job)) or []) if os.path.exists(a)]
+                if arts:
+                    shutil.copy(arts[0], path + ".input")
+                    rec["fuzz_input"] = path + ".input"
+                rec["env"] = job["env"]
+                rec["case"] = None
+            json.dump(rec, open(path, "w"), indent=1)
             replay_paths.append((sig, path, detail))
 
+    for r in results:
+        if r["job"].get("fuzz_dir"):
+            shutil.rmtree(r["job"]["fuzz_dir"], ignore_errors=True)
     wall = time.time() - t0
     nviol = len(unlisted)
     level = plan.get("level", "exploration")
@@ -524,6 +618,9 @@ def replay(path):
     if case.get("case") is not None:
         args.append("case=%d" % case["case"])
     job = {"cfg": case["cfg"], "args": args, "leg": 0, "shard": 0, "timeout": 3600, "env": {}, "weight": 1}
+    if case.get("fuzz_input"):
+        # Coverage-guided leg: the stored input is executed once by the same binary.
+        job.update({"args": [case["fuzz_input"]], "env": case.get("env", {}), "fuzz_replay": True})
     r = run_shard(job)
     print("replay of %s (sig %s) in configuration %s" % (path, case["sig"], case["cfg"]))
     crash = classify_crash(r)
@@ -533,6 +630,10 @@ def replay(path):
         found = True
     if r["result"]:
         for v in r["result"]["violations"]:
+            print("  VIOLATION sig=%s\n    %s" % (v["sig"], v["detail"]))
+            found = True
+    elif r.get("fuzz_violations"):
+        for v in r["fuzz_violations"]:
             print("  VIOLATION sig=%s\n    %s" % (v["sig"], v["detail"]))
             found = True
     if not found:
